@@ -15,7 +15,122 @@ import (
 )
 
 type Locker = sync.Locker
-type Map = sync.Map
+
+// Map is the standard concurrent map with one scheduling point in front of every method (each method
+// is atomic, as documented; threads interleave between calls).
+type Map struct{ m sync.Map }
+
+//go:norace
+func (m *Map) pt(kind string, write bool) {
+	if vrt.Running() {
+		vrt.PointOp(&vrt.Op{Kind: "sync.Map." + kind, Obj: unsafe.Pointer(m), Write: write})
+	}
+}
+func (m *Map) Load(k any) (any, bool) { m.pt("Load", false); return m.m.Load(k) }
+func (m *Map) Store(k, v any)         { m.pt("Store", true); m.m.Store(k, v) }
+func (m *Map) LoadOrStore(k, v any) (any, bool) {
+	m.pt("LoadOrStore", true)
+	return m.m.LoadOrStore(k, v)
+}
+func (m *Map) LoadAndDelete(k any) (any, bool) {
+	m.pt("LoadAndDelete", true)
+	return m.m.LoadAndDelete(k)
+}
+func (m *Map) Delete(k any)              { m.pt("Delete", true); m.m.Delete(k) }
+func (m *Map) Swap(k, v any) (any, bool) { m.pt("Swap", true); return m.m.Swap(k, v) }
+func (m *Map) CompareAndSwap(k, o, n any) bool {
+	m.pt("CompareAndSwap", true)
+	return m.m.CompareAndSwap(k, o, n)
+}
+func (m *Map) CompareAndDelete(k, o any) bool {
+	m.pt("CompareAndDelete", true)
+	return m.m.CompareAndDelete(k, o)
+}
+func (m *Map) Clear() { m.pt("Clear", true); m.m.Clear() }
+
+// Range: a point before the walk and before every callback (the walk is not a snapshot).
+func (m *Map) Range(f func(k, v any) bool) {
+	m.pt("Range", false)
+	m.m.Range(func(k, v any) bool {
+		m.pt("Range.next", false)
+		return f(k, v)
+	})
+}
+
+// OnceFunc, OnceValue, OnceValues: the standard definitions over the shimmed Once.
+func OnceFunc(f func()) func() {
+	var once Once
+	var valid bool
+	var p any
+	g := func() {
+		defer func() {
+			p = recover()
+			if !valid {
+				panic(p)
+			}
+		}()
+		f()
+		f = nil
+		valid = true
+	}
+	return func() {
+		once.Do(g)
+		if !valid {
+			panic(p)
+		}
+	}
+}
+
+func OnceValue[T any](f func() T) func() T {
+	var once Once
+	var valid bool
+	var p any
+	var result T
+	g := func() {
+		defer func() {
+			p = recover()
+			if !valid {
+				panic(p)
+			}
+		}()
+		result = f()
+		f = nil
+		valid = true
+	}
+	return func() T {
+		once.Do(g)
+		if !valid {
+			panic(p)
+		}
+		return result
+	}
+}
+
+func OnceValues[T1, T2 any](f func() (T1, T2)) func() (T1, T2) {
+	var once Once
+	var valid bool
+	var p any
+	var r1 T1
+	var r2 T2
+	g := func() {
+		defer func() {
+			p = recover()
+			if !valid {
+				panic(p)
+			}
+		}()
+		r1, r2 = f()
+		f = nil
+		valid = true
+	}
+	return func() (T1, T2) {
+		once.Do(g)
+		if !valid {
+			panic(p)
+		}
+		return r1, r2
+	}
+}
 
 // ------------------------------------------------------------------ Mutex
 
